@@ -2,15 +2,25 @@
    ares_sconfig_get_port, ares_server_isdup, ares_server_find, ares_servers_update,
    ares_get_server_addr (plain and dns:// URI form), ares_get_servers_csv, set_servers_csv. *)
 From CAres.Config Require Export Lines.
-From CAres.Gen Require Import Consts.
+From CAres.Gen Require Import Consts LeafFns.
 Local Open Scope Z_scope.
 
 Record server := mkServer { sv_addr : addr; sv_udp : Z; sv_tcp : Z; sv_iface : bytes; sv_scope : Z }.
 
-(* ares_sconfig_get_port *)
+(* ares_sconfig_get_port: the function translated from the C source (Gen/LeafFns.v); the port
+   of the entry, else the channel's default for that protocol, else 53 *)
 Definition eff_port (chan_port entry_port : Z) : Z :=
-  let p := if entry_port =? 0 then chan_port else entry_port in
-  if p =? 0 then 53 else p.
+  match c_ares_sconfig_get_port 0 0 entry_port 0 chan_port with
+  | Ok p => p
+  | _ => 53
+  end.
+
+(* ares_server_use_uri (translated from the C source): the URI form is needed *)
+Definition use_uri (tcp udp : Z) : bool :=
+  match c_ares_server_use_uri tcp udp with
+  | Ok r => negb (r =? 0)
+  | _ => false
+  end.
 
 Definition sconf_match (cudp ctcp : Z) (a b : sconf) : bool :=
   addr_eqb (sc_addr a) (sc_addr b) &&
@@ -56,7 +66,7 @@ Definition s_q_tcpport : bytes := Eval compute in (ch_qm :: s_tcpport_eq)%list.
 (* ares_get_server_addr; Err: the URI could not be built (ares_get_servers_csv returns NULL) *)
 Definition get_server_addr (sv : server) : outcome bytes :=
   let a := nf_ntop nf (sv_addr sv) in
-  if negb (sv_tcp sv =? sv_udp sv) then
+  if use_uri (sv_tcp sv) (sv_udp sv) then
     let host := match sv_iface sv with [] => a | i => (a ++ [ch_pct] ++ i)%list end in
     match uri_set_host nf (firstn 255 host) with
     | None => Err ARES_EBADNAME
